@@ -146,7 +146,9 @@ def _batch(job):
     import tempfile
     scratch_dir = tempfile.mkdtemp(prefix="verif_c04s_")
     scratch = os.path.join(scratch_dir, "a.7z")
-    for kind, data in cases:
+    # the two dearer entry points (worker processes; a callback's reporter thread) are evaluated on a sample of the cases
+    every = 12
+    for ci, (kind, data) in enumerate(cases):
         res = {}
         # extraction
         signal.alarm(8)
@@ -170,6 +172,8 @@ def _batch(job):
             signal.alarm(0)
         # integrity entry points on the same bytes
         for call in ("test", "testzip", "testzip_path", "testzip_mp", "extract_callback"):
+            if call in ("testzip_mp", "extract_callback") and ci % every:
+                continue
             signal.alarm(8)
             try:
                 if call == "extract_callback":
